@@ -44,6 +44,7 @@ def plan(tier, seed):
     per = 56 if tier == "quick" else 500
     specs = [{"name": "s%02d" % i, "shard": i, "instances": per, "timeout": 7000} for i in range(n)]
     specs += [{"name": "step%d" % i, "kind": "samplestep", "shard": 50 + i, "instances": 6 if tier == "quick" else 40, "timeout": 7000} for i in range(4)]
+    specs += [{"name": "orch%d" % i, "kind": "orch", "shard": 90 + i, "instances": 20 if tier == "quick" else 150, "timeout": 7000} for i in range(2)]
     specs += [{"name": "prog%d" % i, "kind": "prog", "shard": 70 + i, "instances": 30 if tier == "quick" else 200, "timeout": 7000} for i in range(4)]
     return specs
 
@@ -54,7 +55,8 @@ def required(tier):
             "swap_unequal_reads": 100, "vectors_error_zero": 100, "scenarios_seen": 12, "gibbs_hexaploid": 100,
             "sample_step_kernels_checked": 20, "sample_step_paths_enumerated": 1000,
             "prog_sampler_calls_checked": 150, "prog_pedigrees_with_per_gamete_files": 50, "prog_pedigrees_order_differs_from_file": 50,
-            "prog_incongruence_calls_checked": 100, "prog_pedigrees_with_sample_without_bam": 8}
+            "prog_incongruence_calls_checked": 100, "prog_pedigrees_with_sample_without_bam": 8,
+            "orch_sampler_runs": 25, "orch_swap_calls_checked": 300, "orch_pedigrees_with_distinct_blankets": 15, "orch_trace_steps_checked": 200}
 
 
 class NpProxy:
@@ -373,6 +375,136 @@ def run_samplestep(tier, seed, spec, col):
                               % ("Gibbs" if step_type == 0 else "MH", t, I["name"], res), rep)
 
 
+
+# ---------------------------------------------------------------------------
+# orch: what the pedigree sampler's own loop hands to the moves (several families per pedigree)
+
+ORCH_SHAPES = {
+    # two unrelated families: disjoint blankets
+    "two_families": ([2, 2, 2, 2, 2, 2], [(-1, -1), (-1, -1), (-1, -1), (-1, -1), (0, 1), (2, 3)], [(1, 1)] * 6),
+    "two_families4": ([4, 4, 4, 4, 4, 4, 4], [(-1, -1), (-1, -1), (-1, -1), (-1, -1), (0, 1), (2, 3), (2, 3)], [(2, 2)] * 7),
+    # three pairs sharing parents pairwise
+    "diallel": ([2, 2, 2, 2, 2, 2], [(-1, -1), (-1, -1), (-1, -1), (0, 1), (1, 2), (0, 2)], [(1, 1)] * 6),
+    # a family, a selfing and a cross between their progeny
+    "mixed_families": ([2, 2, 2, 2, 2, 2], [(-1, -1), (-1, -1), (0, 1), (-1, -1), (3, 3), (2, 4)], [(1, 1)] * 6),
+}
+
+
+def run_orch(tier, seed, spec, col):
+    """mcmc_sampler.py_func runs with compound_step and pair_allele_swap_step replaced by recorders that call the REAL
+    compiled moves: every swap must be given a Markov blanket that covers everything whose term changes with the two
+    parents (both parents and all children of either) - the move's acceptance ratio is evaluated over exactly that set, so
+    a blanket that misses a member (or belongs to another family) gives a move that is not stationary at the joint
+    posterior even though pair_allele_swap_step itself is untouched.  Also observed: the children matrix given to the
+    allele updates, and that the recorded trace is the state left by the last move of each iteration."""
+    from numba import types
+    from numba.typed import Dict
+
+    from mchap.jitutils import seed_numba
+    from mchap.pedigree import mcmc as PM
+
+    for name, shape in ORCH_SHAPES.items():
+        pedgen.SCENARIOS.setdefault(name, shape)
+    names = ["two_families", "diallel", "halfsibs", "threegen", "two_families4", "mixed_families", "trio4_child_parent", "backcross4", "mixed_then_child", "random"]
+    real_compound, real_swap = PM.compound_step, PM.pair_allele_swap_step
+    for i in range(spec["instances"]):
+        rng = gen.rng_for(seed, ID, spec["shard"], i)
+        I = pedgen.make_pedigree(rng, names[(spec["shard"] + i) % len(names)])
+        J = pedgen.Joint(I)
+        st0 = None
+        for _ in range(200):
+            cand = pedgen.random_state(rng, I)
+            if J.log_nu(cand) != -math.inf:
+                st0 = cand
+                break
+        if st0 is None:
+            continue
+        parents = I["parents"]
+        n = len(parents)
+        kids = {x: set() for x in range(n)}
+        for c in range(n):
+            for x in parents[c]:
+                if x >= 0:
+                    kids[int(x)].add(c)
+        pairs = {tuple(sorted((int(p), int(q)))) for p, q in parents if p >= 0 and q >= 0}
+        distinct_blankets = {frozenset({p, q} | kids[p] | kids[q]) for p, q in pairs}
+        if len(pairs) >= 2:
+            col.count("orch_pedigrees_with_several_pairs")
+        if len(distinct_blankets) >= 2:
+            col.count("orch_pedigrees_with_distinct_blankets")
+        cache = Dict.empty(key_type=types.UniTuple(types.int64, 2), value_type=types.float64)
+        cache[(-1, -1)] = np.nan
+        log = {"iter": -1, "swaps": [], "bad": [], "ends": {}}
+
+        def w_compound(**kw):
+            log["iter"] += 1
+            kw["llk_cache"] = cache
+            ch = kw["sample_children"]
+            for x in range(n):
+                got = {int(c) for c in ch[x] if c >= 0}
+                if got != kids[x]:
+                    log["bad"].append(("children-matrix-wrong", "allele updates are told sample %d has children %s, the pedigree says %s" % (x, sorted(got), sorted(kids[x]))))
+            out = real_compound(**kw)
+            log["ends"][log["iter"]] = kw["sample_genotypes"].copy()
+            return out
+
+        def w_swap(**kw):
+            kw["llk_cache"] = cache
+            p, q = int(kw["p"]), int(kw["q"])
+            bl = {int(b) for b in kw["markov_blanket"] if b >= 0}
+            need = {p, q} | kids[p] | kids[q]
+            log["swaps"].append((log["iter"], p, q))
+            col.count("orch_swap_calls_checked")
+            if not need <= bl:
+                log["bad"].append(("swap-given-wrong-markov-blanket", "iteration %d: allele swap between parents %d and %d evaluated over the blanket %s, but %s carry terms that change with these two genotypes"
+                                   % (log["iter"], p, q, sorted(bl), sorted(need))))
+            out = real_swap(**kw)
+            log["ends"][log["iter"]] = kw["sample_genotypes"].copy()
+            return out
+
+        s = int(rng.integers(1, 2**31 - 1))
+        np.random.seed(s)
+        seed_numba(s)
+        steps = 12
+        case = {"kind": "orch", "seed": seed, "shard": spec["shard"], "instance": i, "scenario": I["name"], "parents": parents.tolist()}
+        col.case("ORCH|%d|%d" % (spec["shard"], i), nontrivial=len(pairs) >= 2)
+        try:
+            with monitors.patched((PM, "compound_step", w_compound), (PM, "pair_allele_swap_step", w_swap)):
+                trace = PM.mcmc_sampler.py_func(
+                    sample_genotypes=st0.copy(), sample_ploidy=I["ploidy"], sample_parents=parents, gamete_tau=I["tau"], gamete_lambda=I["lam"],
+                    gamete_error=I["err"], sample_read_dists=I["reads"], sample_read_counts=I["counts"], haplotypes=I["haps"],
+                    log_frequencies=np.log(I["freqs"]), n_steps=steps, annealing=0, step_type=int(rng.integers(2)), swap_parental_alleles=True)
+        except Exception as ex:  # noqa: BLE001
+            col.count("orch_runs_aborted")
+            col.note("orch run aborted: %r" % (ex,)) if hasattr(col, "note") else None
+            continue
+        col.count("orch_sampler_runs")
+        for mech, msg in log["bad"][:2]:
+            col.violation(mech, "[%s] %s" % (I["name"], msg), case)
+        # every family is offered a swap in every iteration (the documented schedule); fewer is not a stationarity defect, so only counted
+        per_iter = {}
+        for it, p, q in log["swaps"]:
+            per_iter.setdefault(it, set()).add(tuple(sorted((p, q))))
+        if all(per_iter.get(it, set()) == pairs for it in range(steps)):
+            col.count("orch_runs_every_pair_each_iteration")
+        # the recorded trace is the state left by the last move of each iteration (as multisets per sample)
+        tr = np.asarray(trace)
+        for it in range(steps):
+            end = log["ends"].get(it)
+            if end is None:
+                continue
+            col.count("orch_trace_steps_checked")
+            for x in range(n):
+                pl = int(I["ploidy"][x])
+                a = sorted(int(v) for v in tr[it, x] if v >= 0)
+                b = sorted(int(v) for v in end[x][:pl])
+                if a != b:
+                    col.violation("trace-differs-from-sampler-state", "[%s] iteration %d sample %d: trace holds %s, the sampler's state after the last move was %s" % (I["name"], it, x, a, b), case)
+                    break
+            else:
+                continue
+            break
+
 # ---------------------------------------------------------------------------
 # prog: the pedigree handed to the sampler by `mchap call-pedigree` is the one the user's files describe
 
@@ -549,6 +681,8 @@ def run_shard(tier, seed, spec, col):
         return run_prog(tier, seed, spec, col)
     if spec.get("kind") == "samplestep":
         return run_samplestep(tier, seed, spec, col)
+    if spec.get("kind") == "orch":
+        return run_orch(tier, seed, spec, col)
     names = sorted(pedgen.SCENARIOS)
     for i in range(spec["instances"]):
         rng = gen.rng_for(seed, ID, spec["shard"], i)
